@@ -20,6 +20,9 @@ func JInt(i int64) []byte    { return []byte(strconv.FormatInt(i, 10)) }
 func JBool(b bool) []byte    { return []byte(strconv.FormatBool(b)) }
 func JNull() []byte          { return []byte("null") }
 func JInvalid() []byte       { return []byte(`{"unterminated`) }
+
+// JTrailing is the text of doc followed by further non-blank data.
+func JTrailing(doc []byte) []byte { return append(append([]byte{}, doc...), []byte(` {"x":1}`)...) }
 func JArr(elems ...[]byte) []byte {
 	out := []byte("[")
 	for i, e := range elems {
